@@ -112,6 +112,16 @@ def cases(tier, seed, prep=None):
                     "out_i": rng.randrange(len(OUTS)), "accept": rng.choice([True, True, False]),
                     "answer": rng.choice(["y", "y", "n", ""]), "pre": rng.choice(["absent", "absent", "file", "dir"]),
                     "members": pick_members(rng) if kind == "directory" else []})
+    # the interactive prompt in all its answers, crossed with the awkward destinations under --output-file=<dir>
+    k = 0
+    for nm in ("", ".", "..", "dir/", "trail//", "pre.dir", "good.txt"):
+        for out_ in ("pre.dir", None):
+            for ans in ("", "y", "yes", "Y", "n"):
+                for kind in ("file", "directory"):
+                    out.append({"seed": seed * 1000003 + 570000 + k, "offer": kind, "name_i": NAMES.index(nm), "out_i": OUTS.index(out_),
+                                "accept": False, "answer": ans, "pre": ["absent", "dir", "file"][k % 3],
+                                "members": pick_members(rng) if kind == "directory" else []})
+                    k += 1
     # the destination name already exists as a symbolic link that leads out of the working directory
     for i in range(90 if tier == "quick" else 3000):
         kind = "file" if i % 2 == 0 else "directory"
